@@ -1,6 +1,8 @@
 package render
 
 import (
+	"sync"
+
 	"github.com/osteele/liquid/parser"
 )
 
@@ -10,6 +12,28 @@ type Config struct {
 	grammar
 	Cache           map[string][]byte
 	StrictVariables bool
+	// cacheMu guards Cache: templates are cached and looked up concurrently
+	// (Config values are copied, so the lock is shared through a pointer).
+	cacheMu *sync.RWMutex
+}
+
+// SetCachedSource records template source for use by {% include %}.
+func (c *Config) SetCachedSource(path string, source []byte) {
+	if c.cacheMu != nil {
+		c.cacheMu.Lock()
+		defer c.cacheMu.Unlock()
+	}
+	c.Cache[path] = source
+}
+
+// CachedSource returns template source recorded by SetCachedSource.
+func (c *Config) CachedSource(path string) ([]byte, bool) {
+	if c.cacheMu != nil {
+		c.cacheMu.RLock()
+		defer c.cacheMu.RUnlock()
+	}
+	source, ok := c.Cache[path]
+	return source, ok
 }
 
 type grammar struct {
@@ -23,5 +47,5 @@ func NewConfig() Config {
 		tags:      map[string]TagCompiler{},
 		blockDefs: map[string]*blockSyntax{},
 	}
-	return Config{Config: parser.NewConfig(g), grammar: g, Cache: map[string][]byte{}}
+	return Config{Config: parser.NewConfig(g), grammar: g, Cache: map[string][]byte{}, cacheMu: &sync.RWMutex{}}
 }
